@@ -223,6 +223,12 @@ CARRIERS = [
     # escape sequences inside string and f-string literals (a cut source leaves them half-written)
     "x = f\"\\N{EN DASH}{a}\\x41\\u00e9\"\n", "y = \"\\N{BULLET} \\U0001F600 \\101 \\n\"\n",
     "z = f\'\'\'\\N{EM DASH}\n{b}\\\nc\'\'\'\n", "w = b\"\\x00\\377\" + rb\"\\N{x}\"\n",
+    # empty literals next to each other
+    "'' f''\n", "f\"\" \"\"\n", "x = '' ''\n", "y = b'' b''\n", "f'{a}' ''\n", "'' f'{a}' ''\n", "z =  f\n",
+    # characters pasted from a word processor or a web page: curly quotes, dashes, minus sign, ellipsis, no-break space,
+    # zero-width space, byte-order mark, right-to-left mark, full-width parenthesis
+    "\u201chello\u201d\n", "ls \u2013\u2013all\n", "total = a \u2212 b\n", "[1, 2, \u2026]\n", "x = \u2018a\u2019\n",
+    "y = 1\u00a0+ 2\n", "z\u200b = 3\n", "\ufeffw = 4\n", "v = 5 \u200f# c\n", "f\uff08a\uff09\n", "echo a\u2014b\n",
     # version-gated constructs
     "try:\n    pass\nexcept* E:\n    pass\n",
     "type X = int\n",
@@ -353,7 +359,27 @@ def build_pool() -> list[str]:
     texts.update(CARRIERS)
     texts.update(KEYWORD_NAMES)
     texts.update(grammar_sentences())
+    texts.update(string_prefix_texts())
     return sorted(t for t in texts if _ok_text(t))
+
+
+def string_prefix_texts() -> list[str]:
+    """One literal per string-prefix spelling the working tree's tokenizer accepts (every case combination and
+    order of b r u f p), taken from the tokenizer itself; a static list if it no longer offers one."""
+    try:
+        from peg_parser import tokenize as _tk
+
+        prefixes = sorted(p for p in _tk._all_string_prefixes() if p)
+    except Exception:  # noqa: BLE001
+        prefixes = ["b", "B", "r", "R", "u", "U", "f", "F", "p", "P", "br", "Br", "bR", "BR", "rb", "Rb", "rB", "RB", "fr", "Fr",
+                    "fR", "FR", "rf", "Rf", "rF", "RF", "pr", "Pr", "pR", "PR", "rp", "Rp", "rP", "RP", "pf", "Pf", "pF", "PF",
+                    "fp", "Fp", "fP", "FP"]
+    out = []
+    for pre in prefixes:
+        body = "{a}/b" if "f" in pre.lower() else "/a/b"
+        out.append(f"v = {pre}'{body}'\n")
+        out.append(f"w = {pre}\"{body}\" 'c'\n")
+    return out
 
 
 def grammar_sentences() -> list[str]:
